@@ -40,7 +40,8 @@ def cases(tier, seed):
                [[0, 0, 10], [0, 10, 20], [0, 20, 45]], [[0, 0, 10], [0, 10, 20], [1, 0, 25]],
                [[0, 0, 25], [1, 0, 10], [1, 10, 20]], [[0, 0, 10], [0, 10, 15], [1, 0, 10], [1, 10, 20], [1, 20, 21]]]
     for k, t in enumerate(tables):
-        yield "ext.binsize", {"table": t, "categorical": k % 2 == 0}
+        # row labels of the data frame: 0..n-1, shifted, or a permutation (the table itself is in order either way)
+        yield "ext.binsize", {"table": t, "categorical": k % 2 == 0, "index": ["default", "offset", "sorted"][k % 3]}
 
 
 def run(tier, seed, only_case=None):
@@ -48,7 +49,7 @@ def run(tier, seed, only_case=None):
     r.rule = ("ext.binnify: chromosome-size vectors (lengths 1..6 / 1..9, 1-3 chromosomes) x widths through util.binnify, "
               "`cooler makebins` (with --rel-ids, --header) and cli parse_bins; ext.binsize: every valid bin table with <= 2 "
               "chromosomes of length <= 4 (quick) / <= 5 plus sampled 3-chromosome tables (thorough), all compositions "
-              "(uniform, shorter or LONGER last bin, one bin per chromosome, variable) through get_binsize, get_chromsizes and "
+              "(uniform, shorter or LONGER last bin, one bin per chromosome, variable) with default, shifted or permuted row labels through get_binsize, get_chromsizes and "
               "the attributes of a cooler created on the table. non-trivial = more than one bin.")
     r.assumptions = ["chromosome names a..e; sizes below 2^31"]
     if only_case is None:
